@@ -41,7 +41,7 @@ import (
 	"github.com/nspcc-dev/neofs-node/verifharness/faultstore"
 	"github.com/nspcc-dev/neofs-node/verifharness/stor"
 	"github.com/nspcc-dev/neofs-node/verifharness/uni"
-	cid "github.com/nspcc-dev/neofs-sdk-go/container/id"
+	"github.com/nspcc-dev/neofs-node/verifharness/wcobj"
 	oid "github.com/nspcc-dev/neofs-sdk-go/object/id"
 	"go.uber.org/zap"
 	"pgregory.net/rapid"
@@ -57,7 +57,6 @@ const (
 	fpLeak  = "C17:flushobjs-leak-on-error"
 	fpWin   = "C17:batch-window-off-by-one"
 )
-
 
 type step struct {
 	Op string // put cput del adv outage pout failon failoff block release probe reopen ro rw flush
@@ -84,19 +83,20 @@ func (s step) String() string {
 
 type cfg struct {
 	Thr, BatchCount, BatchSize, Workers, M int
-	Sizes                              [nWork]int
+	Sizes                                  [nWork]int
 }
 
 func (c cfg) String() string {
 	return fmt.Sprintf("thr=%d bcount=%d bsize=%d workers=%d M=%d sizes=%v", c.Thr, c.BatchCount, c.BatchSize, c.Workers, c.M, c.Sizes)
 }
 
-func reach(n int) int {
-	for !sizeReachable(n) {
-		n++
-	}
-	return n
-}
+var (
+	minObjSize    = wcobj.MinObjSize
+	objOfSize     = wcobj.ObjOfSize
+	sizeReachable = wcobj.SizeReachable
+	reach         = wcobj.Reach
+	listCache     = wcobj.ListCache
+)
 
 func genCfg(t *rapid.T) cfg {
 	var c cfg
@@ -248,52 +248,6 @@ func sleepToPhase(ms int) {
 	if d := target.Sub(now); d > 0 {
 		time.Sleep(d)
 	}
-}
-
-// listCache returns address-string → file size for every object file in the
-// cache directory (depth-1 FSTree layout: <root>/<2 chars>/<rest>), measured
-// with os.ReadDir/Lstat only.
-func listCache(root string) (map[string]int64, error) {
-	res := map[string]int64{}
-	top, err := os.ReadDir(root)
-	if err != nil {
-		return nil, err
-	}
-	for _, d := range top {
-		if !d.IsDir() {
-			continue
-		}
-		sub, err := os.ReadDir(filepath.Join(root, d.Name()))
-		if err != nil {
-			return nil, err
-		}
-		for _, f := range sub {
-			if f.IsDir() {
-				continue
-			}
-			name := d.Name() + f.Name()
-			o, c, ok := strings.Cut(name, ".") // FSTree file name: <object id>.<container id>
-			if !ok {
-				continue
-			}
-			var (
-				cnr cid.ID
-				id  oid.ID
-			)
-			if cnr.DecodeString(c) != nil || id.DecodeString(o) != nil {
-				continue
-			}
-			fi, err := f.Info()
-			if err != nil {
-				if os.IsNotExist(err) {
-					continue
-				}
-				return nil, err
-			}
-			res[oid.NewAddress(cnr, id).EncodeToString()] = fi.Size()
-		}
-	}
-	return res, nil
 }
 
 func listing(m map[string]int64) string {
